@@ -139,6 +139,21 @@ def r17_3(ck, F):
     ck.expect(bool(conf) and all(any(b.dominates(sb, c) for sb, _ in stores) for c in conf), "owner_task#confirm-after-store",
               "confirmation is dominated by the store", "confirmation can be sent before/without storing the value",
               b.loc(conf[0]) if conf else b.loc(0))
+    # the writer reports success only when the owner confirmed: in commit() no Err outcome of confirm_rx.await leads to Ok
+    cb = F.main_body("robj::rw_lock::rw_lock::WriteGuard::commit")
+    aw = [a for a in cb.awaits() if "oneshot" in (a.get("fut_ty") or "") + (a.get("fut_fn") or "")]
+    if not aw:
+        raise mir.AnchorMissing("confirm_rx.await in WriteGuard::commit")
+    a = aw[-1]
+    edges = outcome_edges(cb, None, lambda x: any(isinstance(w, tuple) and w and w[0] == "await" and w[2] == a["poll_bb"] for w in mir.walk(x)))
+    errs = [tb for sb, tb, m, e in edges if m == "Err"]
+    oks = [x for x, i2, v2 in cb.result_stores("Ok")]
+    p = cb.find_path(errs, oks) if errs and oks else None
+    ck.expect(bool(errs) and bool(oks) and p is None, "WriteGuard::commit#success-needs-confirmation",
+              "Ok(()) only on the Ok outcome of confirm_rx.await",
+              "WriteGuard::commit returns Ok although the confirmation did not arrive (an Err outcome of confirm_rx.await is mapped to "
+              "Ok): a commit whose value never reached the owner is reported as successful and is lost",
+              cb.loc(errs[0]) if errs else cb.loc(0), {"path": [cb.loc(x) for x in (p or [])][:10]})
     f = F.fn("robj::rw_lock::rw_lock::WriteGuard::commit")
     ck.expect(f["inputs"][0].startswith("robj::rw_lock::rw_lock::WriteGuard"), "WriteGuard::commit#by-value",
               "commit consumes the guard", f"commit takes {f['inputs'][0]}", f"{f['file']}:{f['line']}")
